@@ -28,13 +28,39 @@ type Config struct {
 	// LC_ALL set but empty; 4: LANG with LC_ALL and LC_CTYPE set but empty
 	// (an empty value counts as unset).
 	LocaleVia int
+	// LocaleForm: how the locale name is spelt around its codeset.  0: as
+	// given; 1: "C.<codeset>"; 2: "POSIX.<codeset>"; 3: with an "@euro"
+	// modifier after the codeset; 4: "POSIX.<codeset>@euro".  Only applied to
+	// names of the form language.codeset (glibc ships C.UTF-8; a codeset
+	// named explicitly on the C/POSIX locale is that codeset).
+	LocaleForm int
 	MapMode   int
 	MapSeed   uint64
 }
 
 func (c Config) String() string {
 	return fmt.Sprintf("term=%s tc=%v %dx%d go123=%v gap=%d polling=%v alt=%v lc=%q via=%d map=%d",
-		c.Term, c.TrueColor, c.W, c.H, c.Go123, c.GapScale, c.Polling, c.AltScreen, c.Locale, c.LocaleVia, c.MapMode)
+		c.Term, c.TrueColor, c.W, c.H, c.Go123, c.GapScale, c.Polling, c.AltScreen, SpellLocale(c.Locale, c.LocaleForm), c.LocaleVia, c.MapMode)
+}
+
+// SpellLocale rewrites language.codeset according to Config.LocaleForm.
+func SpellLocale(lc string, form int) string {
+	i := strings.IndexByte(lc, '.')
+	if i < 0 || form == 0 || strings.IndexByte(lc, '@') >= 0 {
+		return lc
+	}
+	cs := lc[i+1:]
+	switch form {
+	case 1:
+		return "C." + cs
+	case 2:
+		return "POSIX." + cs
+	case 3:
+		return lc + "@euro"
+	case 4:
+		return "POSIX." + cs + "@euro"
+	}
+	return lc
 }
 
 // DrawConfig draws a configuration; terms lists candidate entry names.
@@ -47,6 +73,7 @@ func DrawConfig(t *rapid.T, terms []string, maxW, maxH int) Config {
 	c.Go123 = rapid.Bool().Draw(t, "go123timer")
 	c.GapScale = rapid.SampledFrom([]int{1, 1, 2, 5, 20}).Draw(t, "gapscale")
 	c.AltScreen = rapid.Bool().Draw(t, "altscreen")
+	c.LocaleForm = rapid.SampledFrom([]int{0, 0, 0, 1, 2, 3, 4}).Draw(t, "localeform")
 	return c
 }
 
@@ -76,6 +103,7 @@ func NewWorld(cfg Config, ch *simrt.Chooser) (*World, error) {
 	if lc == "" {
 		lc = "en_US.UTF-8"
 	}
+	lc = SpellLocale(lc, cfg.LocaleForm)
 	os.Unsetenv("LC_ALL")
 	os.Unsetenv("LC_CTYPE")
 	os.Unsetenv("LANG")
